@@ -683,6 +683,19 @@ def run(ctx: Any, prog: Program) -> None:
                     src_map = [a for a in passed if isinstance(a, ast.Attribute) and isinstance(a.value, ast.Name) and a.value.id == me7 and a.attr in MAPP]
                     takes_map = any(isinstance(a, ast.Name) and a.id in dest for a in passed) or bool(src_map) or any(k.arg in MAPP for k in c.keywords)
                     if not takes_map:
+                        # handed no map at all: when every copy() this call can be (by the keywords and the number of arguments it passes)
+                        # has a destination-map parameter, leaving it out means "the source's own map"
+                        cands = []
+                        for q8, fl8 in vm.all_funcs().items():
+                            if not q8.endswith('.copy'):
+                                continue
+                            for f8 in fl8:
+                                names8 = [a.arg for a in f8.args.args[1:]] + [a.arg for a in f8.args.kwonlyargs]
+                                if all(k.arg in names8 for k in c.keywords if k.arg) and len(c.args) <= len(f8.args.args) - 1:
+                                    cands.append((q8, [a for a in names8 if a in MAPP]))
+                        if (c.keywords or c.args) and cands and all(d8 for _, d8 in cands):
+                            ctx.check('C09.P7', False, vm, c, f'{q7} copies a sub-object with `{U(c)[:70]}` and does not pass its `{dest[0]}` argument on ({", ".join(q for q, _ in cands)} defaults to the source object\'s own map): '
+                                      'copied into another map, the children stay owned and numbered by the map they came from', func=q7, text=f'{q7}: `{U(c)[:50]}` gets the destination map')
                         continue
                     ctx.check('C09.P7', not src_map, vm, c, f'{q7} copies a sub-object with `{U(c)[:70]}`, handing it the source\'s own map (`{U(src_map[0]) if src_map else ""}`) instead of the `{dest[0]}` argument: copied into '
                               'another map, the children stay owned and numbered by the map they came from', func=q7, text=f'{q7}: `{U(c)[:50]}` gets the destination map')
@@ -823,6 +836,7 @@ def run(ctx: Any, prog: Program) -> None:
 
 
 MUTANTS = [
+    {'id': 'visgroup_children_copied_without_map', 'file': 'vmf.py', 'find': "                child.copy(vmf, group_mapping)\n", 'replace': "                child.copy(group_mapping=group_mapping)\n", 'expect': 'C09.P7'},
     {'id': 'visgroup_children_copied_into_source_map', 'file': 'vmf.py', 'find': "                child.copy(vmf, group_mapping)\n", 'replace': "                child.copy(self.vmf, group_mapping)\n", 'expect': 'C09.P7'},
     {'id': 'side_copy_returns_before_strata_points', 'file': 'vmf.py', 'find': "        if self.strata_points is not None:\n            new_side.strata_points = [point.copy() for point in self.strata_points]\n", 'replace': "        if not self.is_disp:\n            return new_side\n        if self.strata_points is not None:\n            new_side.strata_points = [point.copy() for point in self.strata_points]\n", 'expect': 'C09.P6'},
     {'id': 'ok_side_copy_strata_points_first', 'file': 'vmf.py', 'find': "        side_mapping[self.id] = new_side.id\n        if self.is_disp:", 'replace': "        side_mapping[self.id] = new_side.id\n        if self.strata_points is not None:\n            new_side.strata_points = [point.copy() for point in self.strata_points]\n        if self.is_disp:", 'expect': None},
